@@ -46,9 +46,9 @@ type bounds struct {
 
 func boundsOf(tier string) bounds {
 	if tier == "thorough" {
-		return bounds{enumLen: 7, enumBatch: 8000, legal: 100000, legalBatch: 400, bigs: 24, mut: 100000, mutBatch: 2000, drvReplies: 10000, drvBig: 40}
+		return bounds{enumLen: 7, enumBatch: 8000, legal: 200000, legalBatch: 400, bigs: 24, mut: 200000, mutBatch: 2000, drvReplies: 20000, drvBig: 60}
 	}
-	return bounds{enumLen: 6, enumBatch: 4000, legal: 3000, legalBatch: 100, bigs: 3, mut: 2000, mutBatch: 250, drvReplies: 300, drvBig: 2}
+	return bounds{enumLen: 6, enumBatch: 4000, legal: 4000, legalBatch: 100, bigs: 3, mut: 3000, mutBatch: 250, drvReplies: 400, drvBig: 2}
 }
 
 // fixed witnesses: the inputs named in KNOWN_FINDINGS (repaired by 2ef9ad1) and a few boundary ones.
